@@ -5,7 +5,7 @@ from .sorts import *      # noqa
 from . import types as Ty
 from . import front
 from .front import Unsupported
-from .state import tid, sel_L
+from .state import tid, sel_L, in_pre
 from .state import (SV, State, const_sv, truthy, shape, field_type, KIND, CLS, cls_in, new_list, new_dict,
                     new_exception, new_instance, new_list_from_seq, alloc, elem_type, int_of, str_of, val_of,
                     GHOSTS, CLASS_DECL)
@@ -228,6 +228,8 @@ class ExecExpr(ExecCore):
             c = front.cls_obj(ty.name)
             if hasattr(c, attr):
                 v = getattr(c, attr)
+                if front.is_shared_mutable(attr, v):
+                    raise Unsupported('class attribute %s.%s is a container that the package mutates (shared state)' % (ty.name, attr))
                 if front.is_const_data(v) or isinstance(v, type) or _const_with_classes(v):
                     return [(st, self.lift_py(v, st))], []
                 kind, payload = front.classify(v)
@@ -243,7 +245,7 @@ class ExecExpr(ExecCore):
             if ft is not None:
                 untouched = attr not in st.heap or st.heap[attr].eq(z3.Const('H0_' + attr, FieldArr))
                 term = st.field(attr)[va(base.term)]
-                st.assume(shape(st, term, ft, pre=untouched))
+                st.assume(shape(st, term, ft, pre=in_pre(untouched, va(base.term))))
                 if isinstance(ft, Ty.TFunc) and ft.recv_field:
                     # a bound method stored in a field; its receiver is another field of the same object
                     rt = field_type(ty.cls, ft.recv_field)
@@ -265,6 +267,8 @@ class ExecExpr(ExecCore):
                 if callable(member) and hasattr(member, '__qualname__'):
                     mod = getattr(member, '__module__', None) or owner.__module__
                     return [(st, SV(VNone, Ty.TFunc('%s:%s' % (mod, member.__qualname__), recv=base)))], []
+                if front.is_shared_mutable(attr, member):
+                    raise Unsupported('class member %s.%s is a container that the package mutates (shared state)' % (ty.cls, attr))
                 if front.is_const_data(member) or isinstance(member, type):
                     return [(st, self.lift_py(member, st))], []
                 raise Unsupported('class member %s.%s of type %s' % (ty.cls, attr, type(member).__name__))
@@ -956,7 +960,7 @@ class ExecExpr(ExecCore):
                 raises.append(self.raised(no, 'builtins:KeyError', [key]))
             if has is not None:
                 v = has.DV[a][key.term]
-                has.assume(shape(has, v, ty.v, pre=has.DV.eq(z3.Const('DV0', DVArr))))
+                has.assume(shape(has, v, ty.v, pre=in_pre(has.DV.eq(z3.Const('DV0', DVArr)), a)))
                 sv = SV(v, ty.v)
                 if base.has_py and key.has_py and isinstance(base.py, dict) and key.py in base.py and \
                         isinstance(base.py[key.py], front.CONST_TYPES):
@@ -979,7 +983,7 @@ class ExecExpr(ExecCore):
                 else:
                     ety = ty.t
                 v = seq[i]
-                ok.assume(shape(ok, v, ety, pre=ok.L.eq(z3.Const('L0', ListArr))))
+                ok.assume(shape(ok, v, ety, pre=in_pre(ok.L.eq(z3.Const('L0', ListArr)), va(base.term))))
                 out.append((ok, SV(v, ety)))
             return out, raises
         if isinstance(ty, Ty.TStr):
@@ -995,7 +999,7 @@ class ExecExpr(ExecCore):
             return out, raises
         if isinstance(ty, Ty.TInst):
             owner, member = front.method_owner(ty.cls, '__getitem__')
-            if owner is not None:
+            if owner is not None and hasattr(member, '__module__') and hasattr(member, '__qualname__'):
                 fq = '%s:%s' % (member.__module__, member.__qualname__)
                 return self.call_function(st, SV(VNone, Ty.TFunc(fq, recv=base)), [key], {}, node)
         raise Unsupported('subscript on %r (line %d)' % (ty, node.lineno))
